@@ -45,6 +45,7 @@ pub fn check_all(h: &Hist, out: &Outcome, props: &[&str]) -> OracleOut {
     run_p("C03", &|| oracle_p::check_c03_concurrent(h));
     run_p("C04", &|| oracle_p::check_c04_concurrent(h));
     run_p("C05", &|| oracle_p::check_c05_concurrent(h));
+    run_p("C05", &|| oracle_p::check_c05_tick_starvation(h));
     run_p("C09", &|| oracle_p::check_c09_concurrent(h));
     run_p("C01", &|| oracle_p::check_c01(h));
     run_p("C02", &|| oracle_p::check_c02(h));
